@@ -22,12 +22,12 @@ LEVEL_TEXT = ('every reply string of the alphabet is fed to the real trash-resto
 LEVEL_NOTE = 'trusted: R5 (reference grammar); tokens that only Python int() accepts (" 1", "+1") are don\'t-care; exit status of valid duplicate selections is don\'t-care'
 RULE = ('(a) replies: all strings of length 0..3 (thorough 0..4) over {0,1,2,3,9,-,",",space,+,a} plus {99999999999, 0-99999999999, 3-1, 1-2-3, '
         'arabic-indic 3, 0,0, 1-2,2} x list length {1,4} x sort {date,path}; (b) subsets (<=3) of {/a/foo,/a/foobar,/a/foo/x,/a,/b/foo,/foo,/a/foobar/y,/a/foo-bar/z/w,/a/fo%6F/q (a literal percent escape)} x '
-        'scope {/a/foo,/a/fo,/a,/,/a/foo/,foo,.,..,none}; non-trivial = listing printed and reply read; distinct = (R5 class, list length, outcome) and '
+        'scope {/a/foo,/a/fo,/a,/,/a/foo/,foo,.,..,none, none with the cwd entered through a symlink and $PWD saying so}; (c) one location trashed twice + another entry x 7 replies x --overwrite on/off x sort; non-trivial = listing printed and reply read; distinct = (R5 class, list length, outcome) and '
         '(scope, subset size, outcome)')
 ALPHA = ['0', '1', '2', '3', '9', '-', ',', ' ', '+', 'a']
 EXTRA = ['-3-1', '-1-0', '0,-2-0', '-0', '1--2', '99999999999', '0-99999999999', '3-1', '1-2-3', '٣', '0,0', '1-2,2', '0-3', '3,2,1,0', '0-0']
 LOCS = ['/a/foo', '/a/foobar', '/a/foo/x', '/a', '/b/foo', '/foo', '/a/foobar/y', '/a/foo-bar/z/w', '/a/fo%6F/q']
-SCOPES = ['/a/foo', '/a/fo', '/a', '/', '/a/foo/', 'foo', '.', '..', 'none']
+SCOPES = ['/a/foo', '/a/fo', '/a', '/', '/a/foo/', 'foo', '.', '..', 'none', 'pwd-link']
 TD = scen.HOME_TRASH
 
 
@@ -39,7 +39,7 @@ def replies(tier):
 
 
 def dimensions(tier):
-    return {'replies': len(replies(tier)), 'list_length': 2, 'sort': 3, 'location_subsets': 129, 'scopes': len(SCOPES)}
+    return {'replies': len(replies(tier)), 'list_length': 2, 'sort': 3, 'location_subsets': 129, 'scopes': len(SCOPES), 'same_location_replies': 7}
 
 
 def cases(tier):
@@ -53,6 +53,10 @@ def cases(tier):
             for sub in itertools.combinations(LOCS, k):
                 for sc in SCOPES:
                     out.append({'part': 'b', 'locs': list(sub), 'scope': sc, 'sort': so})
+    for so in ('date', 'path', 'none'):
+        for ow in (0, 1):
+            for rp in ('0-1', '1,0', '0,1', '0', '1', '0-2', '2,0'):
+                out.append({'part': 'c', 'reply': rp, 'sort': so, 'ow': ow})
     return out
 
 
@@ -121,10 +125,15 @@ def run_b(c):
         scen.add_trashed(W, TD, ('s%d', '.s%d')[i % 2] % i, quote(loc, '/'), d, payload='file', tag=loc)
     sc = c['scope']
     cwd = '/a/foo' if sc == '..' else '/a'
-    argv = ['trash-restore', '--sort', c['sort']] + ([] if sc == 'none' else [sc])
-    eff = {'foo': '/a/foo', '.': '/a', '..': '/a', 'none': '/a', '/a/foo/': '/a/foo'}.get(sc, sc)
+    env = None
+    if sc == 'pwd-link':
+        # the working directory was entered through a symbolic link and the shell's logical $PWD still says so
+        W.link('/lnk', '/a')
+        cwd, env = '/lnk', dict(W.env, PWD='/lnk')
+    argv = ['trash-restore', '--sort', c['sort']] + ([] if sc in ('none', 'pwd-link') else [sc])
+    eff = {'foo': '/a/foo', '.': '/a', '..': '/a', 'none': '/a', 'pwd-link': '/a', '/a/foo/': '/a/foo'}.get(sc, sc)
     with cell.Sandbox(W.spec()) as sb:
-        r = sb.run(argv, cwd=cwd, stdin='\n')
+        r = sb.run(argv, cwd=cwd, stdin='\n', env=env)
     listing = scen.parse_restore_listing(r.out)
     want = [l for l in c['locs'] if eff == '/' or l == eff or l.startswith(eff + '/')]
     got = [p for (i, d, p) in listing]
@@ -141,8 +150,43 @@ def run_b(c):
     return {'verdict': 'ok', 'klass': 'scope-ok', 'nontrivial': nt, 'detail': detail}
 
 
+def run_c(c):
+    """one location trashed twice (+ one other entry); with --overwrite every chosen index must leave the trash, without it the second one is refused"""
+    W = scen.base_world(cwd='/home/u/w')
+    ents = [('v', '/home/u/w/v', '2024-01-01T00:00:00'), ('v_1', '/home/u/w/v', '2024-01-02T00:00:00'), ('o', '/home/u/w/o', '2024-01-03T00:00:00')]
+    for nm, loc, d in ents:
+        scen.add_trashed(W, TD, nm, loc, d, payload='file', tag=nm)
+    argv = ['trash-restore', '--sort', c['sort']] + (['--overwrite'] if c['ow'] else [])
+    with cell.Sandbox(W.spec()) as sb:
+        before = sb.snapshot()
+        r = sb.run(argv, cwd='/home/u/w', stdin=c['reply'] + '\n')
+        after = sb.snapshot()
+    listing = scen.parse_restore_listing(r.out)
+    kind, want = R5.judge(c['reply'], 3)
+    gone = sorted(nm for nm, loc, d in ents if scen.entry_state(before, after, TD, nm) == 'purged')
+    half = sorted(nm for nm, loc, d in ents if scen.entry_state(before, after, TD, nm).startswith('half'))
+    # which info file stands behind a printed line: same location twice -> tell the two apart by their dates
+    bykey = {(loc, d.replace('T', ' ')): nm for nm, loc, d in ents}
+    chosen = sorted(bykey.get((p, d)) for (i, d, p) in listing if i in want)
+    detail = {'argv': argv, 'reply': c['reply'], 'exit': r.exit, 'err': r.err[-200:], 'listing': listing, 'left-the-trash': gone, 'chosen': chosen}
+    nt = 'same-location|%s|ow=%d|%s' % (c['reply'], c['ow'], ','.join(gone))
+    if len(listing) != 3 or half:
+        return {'verdict': 'viol', 'sig': 'C13|entry-half-restored|kind=same-location', 'klass': 'half', 'nontrivial': nt, 'detail': detail}
+    if kind != 'valid':
+        return {'verdict': 'dontcare', 'klass': 'reply:' + kind, 'detail': detail}
+    if c['ow'] or len([x for x in chosen if x in ('v', 'v_1')]) < 2:
+        if gone != chosen:
+            return {'verdict': 'viol', 'sig': 'C13|restored-set-differs-from-chosen-indices|same-location|ow=%d' % c['ow'], 'klass': 'restored-set-differs-from-chosen-indices',
+                    'nontrivial': nt, 'detail': detail}
+        return {'verdict': 'ok', 'klass': 'same-location:all-chosen-restored', 'nontrivial': nt, 'detail': detail}
+    # without --overwrite the second version finds the destination taken (C06): only a subset of the chosen ones may leave
+    if not set(gone) <= set(chosen):
+        return {'verdict': 'viol', 'sig': 'C13|restored-an-entry-that-was-not-chosen|same-location', 'klass': 'restored-unchosen', 'nontrivial': nt, 'detail': detail}
+    return {'verdict': 'ok', 'klass': 'same-location:second-version-refused', 'nontrivial': nt, 'detail': detail}
+
+
 def run_case(c):
-    return run_a(c) if c['part'] == 'a' else run_b(c)
+    return run_a(c) if c['part'] == 'a' else (run_b(c) if c['part'] == 'b' else run_c(c))
 
 
 def main(tier, seed):
